@@ -70,3 +70,37 @@ Print Assumptions K_next_chunk.
 Theorem K_extractor_clean : Kernels.extractor_clean = true.
 Proof. reflexivity. Qed.
 Print Assumptions K_extractor_clean.
+
+(** the thread-local arithmetic of the release/acquire machines (Conc/RAn, RA3n, RAx) IS the translated source arithmetic: request gate =
+    [check] + [_available] on the value read, publication = [advance] incl. the value stored, reset / detached advance / sync likewise *)
+Require MRB.Conc.MachineTie.
+Theorem KTie_machine_is_source_arithmetic :
+  forall (len : nat) (script : list (bool * nat * nat)), 0 < len -> len + len < KernelM.usize_max -> let c := RAn.exec_n len (RAn.init_n len) script in (forall j n0 : nat, RAn.pc (RAn.P c) = 0 -> KernelM.run (Kernels.g_check {| KernelM.e_succ := RA.mval (MachineTie.msgP c j); KernelM.e_len := len |} (Kernels.g_prod_available {| KernelM.e_succ := RA.mval (MachineTie.msgP c j); KernelM.e_len := len |}) (PeanoNat.Nat.max 1 n0)) {| KernelM.l_index := RAn.ix (RAn.P c); KernelM.l_cached := RAn.ca (RAn.P c) |} = Some (PeanoNat.Nat.eqb (RAn.pc (RAn.P (RAn.stepP_a true len j n0 c))) 2, {| KernelM.l_index := RAn.ix (RAn.P (RAn.stepP_a true len j n0 c)); KernelM.l_cached := RAn.ca (RAn.P (RAn.stepP_a true len j n0 c)) |}, nil)) /\ (forall j n0 : nat, RAn.pc (RAn.C c) = 0 -> KernelM.run (Kernels.g_check {| KernelM.e_succ := RA.mval (MachineTie.msgC c j); KernelM.e_len := len |} (Kernels.g_cons_available {| KernelM.e_succ := RA.mval (MachineTie.msgC c j); KernelM.e_len := len |}) (PeanoNat.Nat.max 1 n0)) {| KernelM.l_index := RAn.ix (RAn.C c); KernelM.l_cached := RAn.ca (RAn.C c) |} = Some (PeanoNat.Nat.eqb (RAn.pc (RAn.C (RAn.stepC_a true len j n0 c))) 2, {| KernelM.l_index := RAn.ix (RAn.C (RAn.stepC_a true len j n0 c)); KernelM.l_cached := RAn.ca (RAn.C (RAn.stepC_a true len j n0 c)) |}, nil)) /\ (forall j n0 succ : nat, RAn.pc (RAn.P c) = 3 -> succ < len -> KernelM.run (Kernels.g_advance {| KernelM.e_succ := succ; KernelM.e_len := len |} (RAn.cnt (RAn.P c))) {| KernelM.l_index := RAn.ix (RAn.P c); KernelM.l_cached := RAn.ca (RAn.P c) |} = Some (tt, {| KernelM.l_index := RAn.ix (RAn.P (RAn.stepP_a true len j n0 c)); KernelM.l_cached := RAn.ca (RAn.P (RAn.stepP_a true len j n0 c)) |}, (RA.mval (List.last (RAn.Mpi (RAn.stepP_a true len j n0 c)) RA.dmsg) :: nil)%list)) /\ (forall j n0 succ : nat, RAn.pc (RAn.C c) = 3 -> succ < len -> KernelM.run (Kernels.g_advance {| KernelM.e_succ := succ; KernelM.e_len := len |} (RAn.cnt (RAn.C c))) {| KernelM.l_index := RAn.ix (RAn.C c); KernelM.l_cached := RAn.ca (RAn.C c) |} = Some (tt, {| KernelM.l_index := RAn.ix (RAn.C (RAn.stepC_a true len j n0 c)); KernelM.l_cached := RAn.ca (RAn.C (RAn.stepC_a true len j n0 c)) |}, (RA.mval (List.last (RAn.Mci (RAn.stepC_a true len j n0 c)) RA.dmsg) :: nil)%list)).
+Proof. exact MachineTie.machine_is_source_arithmetic. Qed.
+Print Assumptions KTie_machine_is_source_arithmetic.
+
+Theorem KTie_machine_check_worker :
+  forall (acqW : bool) (len : nat), len + len < KernelM.usize_max -> forall (c : RA3n.cfg3n) (j n0 : nat), RA3n.pc3 (RA3n.W3 c) = 0 -> RA3n.ix3 (RA3n.W3 c) < len -> RA3.mval3 (MachineTie.msgW c j) < len -> let t := RA3n.W3 c in let t' := RA3n.W3 (RA3n.stepW3_a acqW len j n0 c) in KernelM.run (Kernels.g_check {| KernelM.e_succ := RA3.mval3 (MachineTie.msgW c j); KernelM.e_len := len |} (Kernels.g_work_available {| KernelM.e_succ := RA3.mval3 (MachineTie.msgW c j); KernelM.e_len := len |}) (PeanoNat.Nat.max 1 n0)) {| KernelM.l_index := RA3n.ix3 t; KernelM.l_cached := RA3n.ca3 t |} = Some (PeanoNat.Nat.eqb (RA3n.pc3 t') 2, {| KernelM.l_index := RA3n.ix3 t'; KernelM.l_cached := RA3n.ca3 t' |}, nil).
+Proof. exact MachineTie.machine_check_W. Qed.
+Print Assumptions KTie_machine_check_worker.
+
+Theorem KTie_machine_reset_attached :
+  forall (acqC : bool) (len : nat) (c : RAx.cfg_x) (j j' n' : nat), RAx.pc (RAx.C c) = 0 -> RAx.det (RAx.C c) = false -> let c2 := RAx.opC_a acqC len j' n' (RAx.resetC_a acqC j c) in KernelM.run (Kernels.g_cons_reset {| KernelM.e_succ := RA.mval (MachineTie.msgXC c j); KernelM.e_len := len |}) {| KernelM.l_index := RAx.ix (RAx.C c); KernelM.l_cached := RAx.ca (RAx.C c) |} = Some (tt, {| KernelM.l_index := RAx.ix (RAx.C c2); KernelM.l_cached := RAx.ca (RAx.C c2) |}, (RA.mval (List.last (RAx.Mci c2) RA.dmsg) :: nil)%list).
+Proof. exact MachineTie.machine_reset_attached. Qed.
+Print Assumptions KTie_machine_reset_attached.
+
+Theorem KTie_machine_reset_detached :
+  forall (acqC : bool) (len : nat) (c : RAx.cfg_x) (j j' n' : nat), RAx.pc (RAx.C c) = 0 -> RAx.det (RAx.C c) = true -> let c2 := RAx.opC_a acqC len j' n' (RAx.resetC_a acqC j c) in KernelM.run (Kernels.g_dreset {| KernelM.e_succ := RA.mval (MachineTie.msgXC c j); KernelM.e_len := len |}) {| KernelM.l_index := RAx.ix (RAx.C c); KernelM.l_cached := RAx.ca (RAx.C c) |} = Some (tt, {| KernelM.l_index := RAx.ix (RAx.C c2); KernelM.l_cached := RAx.ca (RAx.C c2) |}, nil) /\ RAx.Mci c2 = RAx.Mci c.
+Proof. exact MachineTie.machine_reset_detached. Qed.
+Print Assumptions KTie_machine_reset_detached.
+
+Theorem KTie_machine_advance_detached :
+  forall (acqC : bool) (len : nat) (c : RAx.cfg_x) (j n0 succ : nat), RAx.pc (RAx.C c) = 3 -> RAx.det (RAx.C c) = true -> RAx.ix (RAx.C c) < len -> succ < len -> len + len < KernelM.usize_max -> RAx.cnt (RAx.C c) <= len -> let c2 := RAx.opC_a acqC len j n0 c in KernelM.run (Kernels.g_dadvance {| KernelM.e_succ := succ; KernelM.e_len := len |} (RAx.cnt (RAx.C c))) {| KernelM.l_index := RAx.ix (RAx.C c); KernelM.l_cached := RAx.ca (RAx.C c) |} = Some (tt, {| KernelM.l_index := RAx.ix (RAx.C c2); KernelM.l_cached := RAx.ca (RAx.C c2) |}, nil) /\ RAx.Mci c2 = RAx.Mci c.
+Proof. exact MachineTie.machine_advance_detached. Qed.
+Print Assumptions KTie_machine_advance_detached.
+
+Theorem KTie_machine_sync :
+  forall (acqC : bool) (len : nat) (c : RAx.cfg_x) (succ : nat), RAx.pc (RAx.C c) = 0 -> let c2 := RAx.stepC_a acqC len RAx.Sync c in let c3 := RAx.stepC_a acqC len RAx.Attach c in KernelM.run (Kernels.g_sync_index {| KernelM.e_succ := succ; KernelM.e_len := len |}) {| KernelM.l_index := RAx.ix (RAx.C c); KernelM.l_cached := RAx.ca (RAx.C c) |} = Some (tt, {| KernelM.l_index := RAx.ix (RAx.C c2); KernelM.l_cached := RAx.ca (RAx.C c2) |}, (RA.mval (List.last (RAx.Mci c2) RA.dmsg) :: nil)%list) /\ KernelM.run (Kernels.g_sync_index {| KernelM.e_succ := succ; KernelM.e_len := len |}) {| KernelM.l_index := RAx.ix (RAx.C c); KernelM.l_cached := RAx.ca (RAx.C c) |} = Some (tt, {| KernelM.l_index := RAx.ix (RAx.C c3); KernelM.l_cached := RAx.ca (RAx.C c3) |}, (RA.mval (List.last (RAx.Mci c3) RA.dmsg) :: nil)%list).
+Proof. exact MachineTie.machine_sync. Qed.
+Print Assumptions KTie_machine_sync.
+
